@@ -33,7 +33,7 @@ SPEC = {
             "dropped / moved, a set added / dropped / moved; other catalog entries), Expire, Merge of batches 1-3 (late, duplicated, "
             "out-of-order pooled versions; crafted versions around the tie / retention boundaries; revivals, remote expiries and re-pendings "
             "of stored silences), GC, PostGC eviction of random panel subsets, snapshot reload (new Silences + new Silencer), Query; over <= ~6 "
-            "ids x 9 matcher sets (=, !=, =~, !~, two OR-ed sets, UTF-8 name) and their variations x a panel of 10 label sets that grows (<= 16) "
+            "ids x 13 matcher sets (=, !=, =~, !~, two OR-ed sets, UTF-8 name, pairs of distinct matchers whose name+operator+pattern texts coincide: a=\"~1\" / a=~\"1\", \"a=\"=\"1\" / a=\"=1\", alone and OR-ed in one silence; a third of the edits are read-modify-write on the object QueryOne(QIDs) returned) and their variations x a panel of 10 label sets that grows (<= 16) "
             "by label sets on which an edit's old and new matchers disagree; after every operation Mutes (with a marker in the context, so "
             "silencedBy is observed) for a random part of the panel, so cache entries of different ages coexist; one call in twelve is "
             "INTERLEAVED (imutes): 1-2 store operations (Set create - mostly matching this alert - / edit, Expire, Merge, GC) run on the same "
